@@ -251,11 +251,24 @@ func (r *ItemReader) decodeVoteproofs() (interface{}, error) {
 
 	var vps [2]base.Voteproof
 
+	var l sync.Mutex
+
 	if _, err := isaac.BlockItemDecodeLineItemsWithWorker(br, 2, r.enc.Decode, func(_ uint64, v interface{}) error {
+		l.Lock()
+		defer l.Unlock()
+
 		switch t := v.(type) {
 		case base.INITVoteproof:
+			if vps[0] != nil {
+				return errors.Errorf("duplicated init voteproof")
+			}
+
 			vps[0] = t
 		case base.ACCEPTVoteproof:
+			if vps[1] != nil {
+				return errors.Errorf("duplicated accept voteproof")
+			}
+
 			vps[1] = t
 		default:
 			return errors.Errorf("not voteproof, %T", v)
